@@ -182,6 +182,14 @@ func (e *TermEnv) term(v ssa.Value) *T {
 	case *ssa.FieldAddr:
 		return &T{K: "addrfield", Name: fieldName(x.X.Type(), x.Field), Args: []*T{e.Term(x.X)}}
 	case *ssa.Field:
+		// a field of a copy of a local struct with write-once fields
+		if ld, ok := e.Val(x.X).(*ssa.UnOp); ok && ld.Op == token.MUL {
+			if al, ok := e.Val(ld.X).(*ssa.Alloc); ok {
+				if v := fieldInitOf(al, x.Field); v != nil {
+					return e.Term(v)
+				}
+			}
+		}
 		return &T{K: "field", Name: fieldName(x.X.Type(), x.Field), Args: []*T{e.Term(x.X)}}
 	case *ssa.IndexAddr:
 		return &T{K: "addrindex", Args: []*T{e.Term(x.X), e.Term(x.Index)}}
@@ -200,6 +208,20 @@ func (e *TermEnv) term(v ssa.Value) *T {
 			if fv, ok := x.X.(*ssa.FreeVar); ok {
 				if v, ok := cellValue(freeVarCell(fv)); ok {
 					return e.Term(v)
+				}
+			}
+			// a write-once field of a local struct: the value it was initialised with
+			if fa, ok := x.X.(*ssa.FieldAddr); ok {
+				if al, ok := e.Val(fa.X).(*ssa.Alloc); ok {
+					if v := fieldInitOf(al, fa.Field); v != nil {
+						return e.Term(v)
+					}
+					// a value receiver spilled to a local of the method: a copy of the caller's struct
+					for src, n := e.structCopyOf(al), 0; src != nil && n < 4; src, n = e.structCopyOf(src), n+1 {
+						if v := fieldInitOf(src, fa.Field); v != nil {
+							return e.Term(v)
+						}
+					}
 				}
 			}
 			a := e.Term(x.X)
@@ -640,4 +662,117 @@ func hasKind(t *T, k string) bool {
 		}
 	}
 	return false
+}
+
+// ---- write-once fields of local structs
+//
+// s := T{f: v, ...} followed by reads of s.f (directly, in methods of T read as part of the function, through a
+// pointer or a copy of s): the read is v, provided field f of type T is stored nowhere in the module except by
+// such initialisations of a local of its own (a store through any other address could alias the local).
+
+var fieldStoreIndex map[string][]*ssa.Store // "pkg.Type.field" -> stores
+var fieldStoreIndexFor *Prog
+
+func fieldStoresOf(key string) []*ssa.Store {
+	if theProg == nil {
+		return nil
+	}
+	if fieldStoreIndex == nil || fieldStoreIndexFor != theProg {
+		fieldStoreIndex = map[string][]*ssa.Store{}
+		fieldStoreIndexFor = theProg
+		for _, pk := range theProg.ScopePkgs() {
+			for _, fn := range pkgFunctions(theProg, pk.PkgPath) {
+				for _, b := range fn.Blocks {
+					for _, ins := range b.Instrs {
+						if st, ok := ins.(*ssa.Store); ok {
+							if fa, ok := st.Addr.(*ssa.FieldAddr); ok {
+								k := types.TypeString(derefType(fa.X.Type()), nil) + "." + fieldName(fa.X.Type(), fa.Field)
+								fieldStoreIndex[k] = append(fieldStoreIndex[k], st)
+							}
+						}
+					}
+				}
+			}
+		}
+	}
+	return fieldStoreIndex[key]
+}
+
+func derefType(t types.Type) types.Type {
+	if p, ok := t.Underlying().(*types.Pointer); ok {
+		return p.Elem()
+	}
+	return t
+}
+
+// fieldInitOf: the one value stored into field #field of the local struct al, or nil.
+func fieldInitOf(al *ssa.Alloc, field int) ssa.Value {
+	st, ok := derefType(al.Type()).Underlying().(*types.Struct)
+	if !ok || field >= st.NumFields() {
+		return nil
+	}
+	if _, named := derefType(al.Type()).(*types.Named); !named {
+		return nil
+	}
+	key := types.TypeString(derefType(al.Type()), nil) + "." + st.Field(field).Name()
+	var mine ssa.Value
+	for _, s := range fieldStoresOf(key) {
+		fa := s.Addr.(*ssa.FieldAddr)
+		base, isAl := fa.X.(*ssa.Alloc)
+		if !isAl {
+			return nil // stored through some other address: could be this object
+		}
+		if base == al {
+			if mine != nil {
+				return nil
+			}
+			mine = s.Val
+		}
+	}
+	if mine == nil {
+		return nil
+	}
+	// the local is never overwritten as a whole
+	if al.Referrers() != nil {
+		for _, r := range *al.Referrers() {
+			if s, ok := r.(*ssa.Store); ok && s.Addr == ssa.Value(al) {
+				return nil
+			}
+		}
+	}
+	return mine
+}
+
+// structCopyOf: al is a local that receives, in one store of the whole struct, a copy of another local struct
+// (through the path's substitutions: a value receiver bound to the caller's variable): that other local.
+func (e *TermEnv) structCopyOf(al *ssa.Alloc) *ssa.Alloc {
+	if al.Referrers() == nil {
+		return nil
+	}
+	var whole *ssa.Store
+	for _, r := range *al.Referrers() {
+		if st, ok := r.(*ssa.Store); ok && st.Addr == ssa.Value(al) {
+			if whole != nil {
+				return nil
+			}
+			whole = st
+		}
+		// the copy's own fields are not written
+		if fa, ok := r.(*ssa.FieldAddr); ok && fa.Referrers() != nil {
+			for _, rr := range *fa.Referrers() {
+				if st, ok := rr.(*ssa.Store); ok && st.Addr == ssa.Value(fa) {
+					return nil
+				}
+			}
+		}
+	}
+	if whole == nil {
+		return nil
+	}
+	if ld, ok := e.Val(whole.Val).(*ssa.UnOp); ok && ld.Op == token.MUL {
+		if src, ok := e.Val(ld.X).(*ssa.Alloc); ok {
+			return src
+		}
+	}
+	return nil
 }
